@@ -28,7 +28,7 @@ def generate(rnd, tier, index=0):
     if index == 0:
         return {"cfg": None, "sweep": True, "ops": []}
     regime = rnd.choice(["exact", "float"])
-    cfg, spare = gen.gen_cfg(rnd, with_np=rnd.random() < 0.8)
+    cfg, spare = gen.gen_cfg(rnd, with_np=rnd.random() < 0.8, scale=True)
     d = rnd.randint(1, 4)
     par = {"n_jobs": rnd.choice([2, 3, 5, -1, -2, 64]),
            "backend": rnd.choice([None, "threading", "loky", "multiprocessing"])}
